@@ -333,6 +333,12 @@ fn one_case(ctx: &mut Ctx, idx: usize, w: &World, w2: &World) {
 }
 
 pub fn run(ctx: &mut Ctx) {
+    // the digits that carry a signature under a freshly generated range key (hypothesis of pay_balances_in_range)
+    if ctx.shard == 0 && ctx.begin_case(0, "generated-range-parameters") {
+        let mut rng = crate::rng::ScriptedRng::new(ctx.prng.gen(), ctx.book.clone());
+        let rp = zkabacus_crypto::RangeConstraintParameters::new(&mut rng);
+        let _ = crate::rangelab::published_digits_audit(ctx, &wire::ser(&rp));
+    }
     let w = match world(ctx, ctx.shard % 4 == 1) { Some(w) => w, None => return };
     let w2 = match world(ctx, false) { Some(w) => w, None => return };
     let n = if ctx.thorough() { 6 * ctx.nshards } else { ctx.nshards };
